@@ -94,7 +94,7 @@ pub struct VoiceOpts {
     pub trees_reversed: bool,
 }
 
-pub const WINDOW_SETS: [&[&[f64]]; 8] = [
+pub const WINDOW_SETS: [&[&[f64]]; 9] = [
     &[&[1.0]],
     &[&[1.0], &[-0.5, 0.0, 0.5]],
     &[&[1.0], &[-0.5, 0.0, 0.5], &[1.0, -2.0, 1.0]],
@@ -106,6 +106,9 @@ pub const WINDOW_SETS: [&[&[f64]]; 8] = [
     // are exactly zero and fill in during the factorisation
     &[&[1.0], &[-0.2, -0.1, 0.0, 0.1, 0.2]],
     &[&[1.0], &[-0.2, -0.1, 0.0, 0.1, 0.2], &[0.25, 0.0, -0.5, 0.0, 0.25]],
+    // dynamic windows written at a common width: exact zeros at both ends (the width in the file
+    // is the width; the outer frames still count as read)
+    &[&[1.0], &[0.0, -0.5, 0.0, 0.5, 0.0], &[0.0, 0.0, 1.0, -2.0, 1.0, 0.0, 0.0]],
 ];
 
 pub fn window_set(id: usize) -> Vec<Vec<f64>> {
@@ -122,8 +125,8 @@ impl VoiceOpts {
             ln_gain: rng.chance(0.5),
             mcp_len: rng.range(2, 10),
             lpf_len: 2 * rng.range(0, 7) + 1,
-            win_mcp: rng.below(8),
-            win_lf0: rng.below(8),
+            win_mcp: rng.below(9),
+            win_lf0: rng.below(9),
             gv_mcp: rng.chance(0.5),
             gv_lf0: rng.chance(0.5),
             rate: *rng.pick(&[8000usize, 16000, 22050, 44100, 48000]),
@@ -570,6 +573,23 @@ pub fn generate(opts: &VoiceOpts, pool: &QuestionPool, rng: &mut Rng) -> VoiceSp
         });
     }
 
+    // a few means are written as -0.0 (0x80000000): a loaded voice keeps the sign bit
+    // (not in a line-spectral-pair stream, whose means must stay increasing frequencies)
+    for (si, st) in streams.iter_mut().enumerate() {
+        if si == 0 && opts.stage != 0 {
+            continue;
+        }
+        let nmean = st.vector_length * st.windows.len();
+        for tree in st.model.pdfs.iter_mut() {
+            for pdf in tree.iter_mut() {
+                for x in pdf.iter_mut().take(nmean) {
+                    if rng.chance(0.02) {
+                        *x = -0.0;
+                    }
+                }
+            }
+        }
+    }
     if opts.trees_reversed {
         for st in streams.iter_mut() {
             if st.model.trees.len() > 1 {
